@@ -417,11 +417,11 @@ def judge_oracle_only(ctx, case, R):
         ctx.hist["skipped_model_raises"] = ctx.hist.get("skipped_model_raises", 0) + 1
         return
     if "gen" in R:
-        ctx.judge(dict(base, queries=[]), R["gen"], {"ok": "source emitted"}, None, what="generation raised (wider expression fragment)")
+        ctx.judge(dict(base, queries=[]), R["gen"], {"ok": "source emitted"}, None, what="generation raised (oracle-only stratum)")
         return
     if classify(case["content"]) is None:
         ctx.judge(dict(base, queries=[]), R["R_struct"], R["S_struct"], None,
-                  what="component names / kinds / arguments / plain values (wider expression fragment)")
+                  what="component names / kinds / arguments / plain values (oracle-only stratum)")
     else:
         return      # name collisions / repeated arguments are the subject of the exact strata
     for i, q in enumerate(case["queries"]):
@@ -431,7 +431,7 @@ def judge_oracle_only(ctx, case, R):
             continue
         if cg.close(Rq, S):
             Rq = S
-        ctx.judge(dict(base, queries=[q]), Rq, S, None, finding=fid, what=f"round trip, query {q[0]} (wider expression fragment)")
+        ctx.judge(dict(base, queries=[q]), Rq, S, None, finding=fid, what=f"round trip, query {q[0]} (oracle-only stratum)")
 
 
 def judge_phase(ctx, case, R, M, tag=""):
